@@ -129,7 +129,8 @@ func runC05(c *Ctx) {
 		}
 		return false
 	}
-	H := []string{`builtin:len(strings.Fields(param1)) != 0`, strings.TrimSuffix(bi.sizeDesc, "#0") + "#1 == nil"}
+	// (a declared size of zero leaves nothing to consume)
+	H := []string{`builtin:len(strings.Fields(param1)) != 0`, strings.TrimSuffix(bi.sizeDesc, "#0") + "#1 == nil", bi.sizeDesc + " != 0"}
 	res := CountPaths(f, func(in ssa.Instruction) (int, int) {
 		if isConsume(in) {
 			return 1, 1
